@@ -20,6 +20,10 @@
 (* (M) abstract problem: a batch record T = MDP instance of lib/MDP.tla without absorbing *)
 (*     states (P/PD, integer R, discount GN/GD) + entropy weight LN[s]/LD[s] per state +  *)
 (*     prior pn[s][a]/PRD on the open simplex + initial policy ip[s][a]/IPD.              *)
+(*     The planner wrapper on an MDP with state-dependent action sets gives avail[s][a]:  *)
+(*     its prior is uniform over the AVAILABLE actions (pn = 0 on the others), every      *)
+(*     clause ranges over the available actions, and the returned policy must put no mass *)
+(*     on an unavailable one (policy-mass-on-unavailable-action).                         *)
 (* (O) exact oracle: OptimalValue / OptimalQ (policy enumeration, Cramer) for the limit   *)
 (*     clause; for the other clauses the ground truth is the identity itself.             *)
 (* (R) reference machine, one action per step of the loop of the code:                    *)
@@ -90,14 +94,19 @@ Tr == Batch[tid]
 CeilLam(T, s)   == (T.LN[s] + T.LD[s] - 1) \div T.LD[s]
 LamMul(T, s, x) == MulDivSat(x, T.LN[s], T.LD[s])
 F32(x)          == AbsI(x) \div 4194304                 \* |x| * 2^-22
-RAbsMax(T) == MaxSet({AbsI(T.R[x[1]][x[2]][x[3]]) : x \in St(T) \X Ac(T) \X St(T)} \cup {1})
+\* state-dependent action sets (planner wrapper on an MDP whose actions(s) differ): every clause ranges over the
+\* AVAILABLE actions Avail(T, s) of lib/MDP.tla; the prior is full-support on them (pn = 0 exactly on the others)
+\* and the returned policy must put no mass on an unavailable action
+SA(T) == {x \in St(T) \X Ac(T) : x[2] \in Avail(T, x[1])}
+RAbsMax(T) == MaxSet({AbsI(T.R[x[1]][x[2]][x[3]]) : x \in {y \in St(T) \X Ac(T) \X St(T) : y[2] \in Avail(T, y[1])}} \cup {1})
 \* |V| <= max|R| / (1 - gamma) at the soft fixed point (V* from above, the prior policy's value from below)
 VBound(T)  == MulDiv(RAbsMax(T) * U20, T.GD, T.GD - T.GN) + 1
 BIG == 268435456                                        \* 2^28: products of logged values stay inside 31 bits below it
 MagOK(T, e) == /\ \A s \in St(T) : AbsI(e.v[s]) < BIG
-               /\ \A s \in St(T) : \A a \in Ac(T) : AbsI(e.q[s][a]) < BIG
+               /\ \A x \in SA(T) : AbsI(e.q[x[1]][x[2]]) < BIG
 FR(c, j, s, a, b, got, tol) == [c |-> c, j |-> j, s |-> s, a |-> a, b |-> b, got |-> got, tol |-> tol]
-Pairs(T) == {x \in Ac(T) \X Ac(T) : x[1] # x[2]}
+Pairs(T, s) == {x \in Avail(T, s) \X Avail(T, s) : x[1] # x[2]}
+SPairs(T) == {y \in St(T) \X (Ac(T) \X Ac(T)) : y[2] \in Pairs(T, y[1])}
 RowSum(T, row) == SumTo(row, T.K)
 
 \* ------------------------------------------------------------------ shape of a logged policy
@@ -107,15 +116,17 @@ ShapeFails(T, e, j) ==
       s \in {x \in St(T) : AbsI(RowSum(T, e.pi[x]) - U20) > NormTol(T)}}
   \cup {FR("policy-entry-outside-unit-interval", j, x[1], x[2], 0, e.pi[x[1]][x[2]], 0) :
       x \in {y \in St(T) \X Ac(T) : e.pi[y[1]][y[2]] < 0 \/ e.pi[y[1]][y[2]] > U20}}
+  \cup {FR("policy-mass-on-unavailable-action", j, x[1], x[2], 0, e.pi[x[1]][x[2]], 0) :
+      x \in {y \in (St(T) \X Ac(T)) \ SA(T) : e.pi[y[1]][y[2]] > 0}}
 
 \* recorder sanity (the trusted math.log): L ordered like pi / prior, and 1 - 1/x <= ln x <= x - 1
 LogOrderBad(T, e, s) ==
-  \E x \in Pairs(T) :
+  \E x \in Pairs(T, s) :
      LET a == x[1]  b == x[2] IN
      /\ 2 * (e.pi[s][a] * T.pn[s][b] - e.pi[s][b] * T.pn[s][a]) > T.pn[s][a] + T.pn[s][b]
      /\ e.L[s][a] < e.L[s][b]
 LogBracketBad(T, e, s) ==
-  \E a \in Ac(T) :
+  \E a \in Avail(T, s) :
      /\ e.pi[s][a] >= 1 /\ e.pi[s][a] <= U20
      /\ \/ (U20 + e.L[s][a]) * T.pn[s][a] > e.pi[s][a] * T.PRD + T.pn[s][a] + T.PRD
         \/ AbsI(U20 - e.L[s][a]) >= 2 * BIG
@@ -135,17 +146,18 @@ LookRes(T, e, s, a) ==
   IN e.q[s][a] - (ru + vs)
 LookFails(T, e, j, clause) ==
   {FR(clause, j, x[1], x[2], 0, LookRes(T, e, x[1], x[2]), LookTol(T, e)) :
-      x \in {y \in St(T) \X Ac(T) : AbsI(LookRes(T, e, y[1], y[2])) > LookTol(T, e)}}
+      x \in {y \in SA(T) : AbsI(LookRes(T, e, y[1], y[2])) > LookTol(T, e)}}
 
 \* ------------------------------------------------------------------ evaluation step of an iterate
 \* v(s) = sum_a pi_a q_a - lambda KL(pi | prior); with sum_a pi_a = 1:  sum_a pi_a (q_a - v) = lambda sum_a pi_a L_a
-EvalA1(T, e, s) == SumTo([a \in Ac(T) |-> IF e.pi[s][a] = 0 THEN 0 ELSE Mul20(e.pi[s][a], e.q[s][a] - e.v[s])], T.K)
-EvalA2(T, e, s) == SumTo([a \in Ac(T) |-> IF e.pi[s][a] = 0 THEN 0 ELSE Mul20(e.pi[s][a], e.L[s][a])], T.K)
+Live(T, e, s, a) == a \in Avail(T, s) /\ e.pi[s][a] > 0 /\ e.pi[s][a] <= U20
+EvalA1(T, e, s) == SumTo([a \in Ac(T) |-> IF ~Live(T, e, s, a) THEN 0 ELSE Mul20(e.pi[s][a], e.q[s][a] - e.v[s])], T.K)
+EvalA2(T, e, s) == SumTo([a \in Ac(T) |-> IF ~Live(T, e, s, a) THEN 0 ELSE Mul20(e.pi[s][a], e.L[s][a])], T.K)
 EvalRes(T, e, s) == EvalA1(T, e, s) - LamMul(T, s, EvalA2(T, e, s))
 EvalTol(T, e, s) ==
-  LET eq == SumTo([a \in Ac(T) |-> (AbsI(e.q[s][a] - e.v[s]) \div (2 * U20)) + 1], T.K)
+  LET eq == SumTo([a \in Ac(T) |-> IF a \in Avail(T, s) THEN (AbsI(e.q[s][a] - e.v[s]) \div (2 * U20)) + 1 ELSE 1], T.K)
       \* an entry rounded to 0 contributes at most x |ln x| + x ln 16 at x = 2^-21: below 9 units
-      el == SumTo([a \in Ac(T) |-> IF e.pi[s][a] = 0 THEN 9 ELSE (AbsI(e.L[s][a]) \div (2 * U20)) + 1], T.K) + 1
+      el == SumTo([a \in Ac(T) |-> IF ~Live(T, e, s, a) THEN 9 ELSE (AbsI(e.L[s][a]) \div (2 * U20)) + 1], T.K) + 1
   IN T.K + eq + 1 + CeilLam(T, s) * (T.K + el) + 1 + F32(LamMul(T, s, EvalA2(T, e, s))) + 2
 EvalFails(T, e, j) ==
   {FR("evaluation-identity", j, s, 0, 0, EvalRes(T, e, s), EvalTol(T, e, s)) :
@@ -165,18 +177,19 @@ StepBad(T, eq, en, s, a, b) ==
      ELSE FALSE
 StepFails(T, eq, en, j) ==
   {FR("improvement-step", j, x[1], x[2][1], x[2][2], 0, 0) :
-      x \in {y \in St(T) \X Pairs(T) : StepBad(T, eq, en, y[1], y[2][1], y[2][2])}}
+      x \in {y \in SPairs(T) : StepBad(T, eq, en, y[1], y[2][1], y[2][2])}}
 
 \* ------------------------------------------------------------------ clauses 2 and 3 on the returned iterate
-Judged(T, e, s) == {a \in Ac(T) : e.pi[s][a] >= 2}
+Judged(T, e, s) == {a \in Avail(T, s) : e.pi[s][a] >= 2}
 EUnits(e, s, a) == 12 + (22200 \div (2 * e.pi[s][a] - 1))
-Ref(T, e, s)    == CHOOSE a \in Ac(T) : \A b \in Ac(T) : e.pi[s][a] > e.pi[s][b] \/ (e.pi[s][a] = e.pi[s][b] /\ a <= b)
+Ref(T, e, s)    == CHOOSE a \in Avail(T, s) : \A b \in Avail(T, s) : e.pi[s][a] > e.pi[s][b] \/ (e.pi[s][a] = e.pi[s][b] /\ a <= b)
 \* d_a = lambda L_a - (q_a - v), for every action (saturating product)
 DRes(T, e, s, a) == LamMul(T, s, e.L[s][a]) - (e.q[s][a] - e.v[s])
 \* lambda KL(pi | softmax) in units, from the residuals: sum_a w_a |d_a| 2^-30 with w_a = 11 + 11 pi_int / 1024 (+1)
 WUnits(e, s, a) == 12 + (((e.pi[s][a] + 1) * 11) \div K10)
 Delta(T, e, s) ==
-  1 + SumTo([a \in Ac(T) |-> ((((AbsI(DRes(T, e, s, a)) \div 32768) + 1) * WUnits(e, s, a)) \div 32768) + 1], T.K)
+  1 + SumTo([a \in Ac(T) |-> IF a \notin Avail(T, s) THEN 0
+                              ELSE ((((AbsI(DRes(T, e, s, a)) \div 32768) + 1) * WUnits(e, s, a)) \div 32768) + 1], T.K)
 \* policy = prior-weighted softmax of Q: pairwise, among the entries of at least 2 units
 SoftTol(T, e, s, a, b, lam) == LamMul(T, s, EUnits(e, s, a) + EUnits(e, s, b)) + 1 + CeilLam(T, s) + 3 + F32(lam)
 SoftBad(T, e, s, a, b) ==
@@ -198,14 +211,14 @@ FixFails(T, e, j) ==
   {FR("policy-not-softmax-of-action-values", j, x[1], x[2][1], x[2][2],
       SoftRes(T, e, x[1], x[2][1], x[2][2]),
       SoftTol(T, e, x[1], x[2][1], x[2][2], LamMul(T, x[1], e.L[x[1]][x[2][1]] - e.L[x[1]][x[2][2]]))) :
-      x \in {y \in St(T) \X Pairs(T) : /\ y[2][1] < y[2][2]
+      x \in {y \in SPairs(T) : /\ y[2][1] < y[2][2]
                                        /\ y[2][1] \in Judged(T, e, y[1]) /\ y[2][2] \in Judged(T, e, y[1])
                                        /\ SoftBad(T, e, y[1], y[2][1], y[2][2])}}
   \cup {FR("negligible-action-not-dominated", j, x[1], x[2], Ref(T, e, x[1]), e.q[x[1]][x[2]] - e.q[x[1]][Ref(T, e, x[1])], 0) :
-      x \in {y \in St(T) \X Ac(T) : y[2] \notin Judged(T, e, y[1]) /\ SmallBad(T, e, y[1], y[2])}}
+      x \in {y \in SA(T) : y[2] \notin Judged(T, e, y[1]) /\ SmallBad(T, e, y[1], y[2])}}
   \cup {FR("state-value-not-log-sum-exp", j, x[1], x[2], 0, DRes(T, e, x[1], x[2]), LseTol(T, e, x[1], x[2])) :
-      x \in {y \in St(T) \X Ac(T) : y[2] \in Judged(T, e, y[1])
-                                     /\ AbsI(DRes(T, e, y[1], y[2])) > LseTol(T, e, y[1], y[2])}}
+      x \in {y \in SA(T) : y[2] \in Judged(T, e, y[1])
+                          /\ AbsI(DRes(T, e, y[1], y[2])) > LseTol(T, e, y[1], y[2])}}
 
 \* ------------------------------------------------------------------ (O) limit clause: distance to the optimal action values
 MaxDelta(T, e) == MaxSet({Delta(T, e, s) : s \in St(T)})
@@ -216,21 +229,29 @@ LimitB(T) ==
   LET s == LamMaxAt(T)  t1 == MulDiv(U20, LogUB[T.K], 10000) + 1
   IN MulDiv(t1, T.LN[s] * T.GN, T.LD[s] * (T.GD - T.GN)) + 1
 QStarU(T) == LET vs == OptimalValue(T)  qs == OptimalQ(T, vs)
-             IN TLCEval([s \in St(T) |-> [a \in Ac(T) |-> ScaleRat(qs[s][a])]])
+             IN TLCEval([s \in St(T) |-> [a \in Ac(T) |-> IF a \in Avail(T, s) THEN ScaleRat(qs[s][a]) ELSE 0]])
 LimitFails(T, e, j) ==
   IF T.orc = 0 \/ T.unif = 0 THEN {}
   ELSE LET qs == QStarU(T)  B == LimitB(T)  sl == ResidSlack(T, e) + F32(LimitB(T)) IN
        {FR("action-values-above-optimal", j, x[1], x[2], 0, e.q[x[1]][x[2]] - qs[x[1]][x[2]], sl + 2) :
-           x \in {y \in St(T) \X Ac(T) : e.q[y[1]][y[2]] > qs[y[1]][y[2]] + sl + 2}}
+           x \in {y \in SA(T) : e.q[y[1]][y[2]] > qs[y[1]][y[2]] + sl + 2}}
        \cup {FR("action-values-farther-from-optimal-than-bound", j, x[1], x[2], 0,
                 qs[x[1]][x[2]] - e.q[x[1]][x[2]], B + sl + 2) :
-           x \in {y \in St(T) \X Ac(T) : e.q[y[1]][y[2]] < qs[y[1]][y[2]] - B - sl - 2}}
+           x \in {y \in SA(T) : e.q[y[1]][y[2]] < qs[y[1]][y[2]] - B - sl - 2}}
 
 BoundFails(T, e, j) ==
   LET vb == VBound(T) + (IF MagOK(T, e) THEN ResidSlack(T, e) ELSE 1024) IN
   {FR("value-outside-reward-bounds", j, s, 0, 0, e.v[s], vb) : s \in {x \in St(T) : AbsI(e.v[x]) > vb}}
   \cup {FR("value-outside-reward-bounds", j, x[1], x[2], 0, e.q[x[1]][x[2]], vb) :
-          x \in {y \in St(T) \X Ac(T) : AbsI(e.q[y[1]][y[2]]) > vb}}
+          x \in {y \in SA(T) : AbsI(e.q[y[1]][y[2]]) > vb}}
+
+\* signature predicate of a defect of the unchanged tree: the wrapper emulates "prior 0 on an unavailable action" by the
+\* smallest positive float (logit ln(2.2e-308) = -708.4, action value 0 from the all-zero transition row), so an
+\* unavailable action competes with - and beyond about -693 lambda dominates - the available ones of a state whose
+\* available action values are all below -690 lambda
+ClampStates(T, e) ==
+  {s \in St(T) : /\ Avail(T, s) # Ac(T)
+                 /\ \A a \in Avail(T, s) : AbsI(e.q[s][a]) < BIG /\ e.q[s][a] < -LamMul(T, s, 690 * U20)}
 
 \* all statement clauses on the returned iterate of a run that reported convergence
 ReturnedFails(T, e, j) ==
@@ -243,8 +264,9 @@ ReturnedFails(T, e, j) ==
 Report(T, e) ==
   IF ~MagOK(T, e) THEN [mag |-> 0]
   ELSE [mag |-> 1,
-        look |-> [s \in St(T) |-> [a \in Ac(T) |-> LookRes(T, e, s, a)]], looktol |-> LookTol(T, e),
-        d |-> [s \in St(T) |-> [a \in Ac(T) |-> DRes(T, e, s, a)]],
+        look |-> [s \in St(T) |-> [a \in Ac(T) |-> IF a \in Avail(T, s) THEN LookRes(T, e, s, a) ELSE 0]],
+        looktol |-> LookTol(T, e),
+        d |-> [s \in St(T) |-> [a \in Ac(T) |-> IF a \in Avail(T, s) THEN DRes(T, e, s, a) ELSE 0]],
         delta |-> [s \in St(T) |-> Delta(T, e, s)],
         lsetol |-> [s \in St(T) |-> [a \in Ac(T) |-> IF a \in Judged(T, e, s) THEN LseTol(T, e, s, a) ELSE -1]],
         evalres |-> [s \in St(T) |-> EvalRes(T, e, s)], evaltol |-> [s \in St(T) |-> EvalTol(T, e, s)],
@@ -310,8 +332,8 @@ Cap ==
 \* ------------------------------------------------------------------ (R) mc mode: the zero-temperature limit of the loop
 W12(m, sp) == [s \in St(m) |-> [a \in Ac(m) |-> IF a \in sp[s] THEN 12 \div Cardinality(sp[s]) ELSE 0]]
 QTab(m, v) == TLCEval([s \in St(m) |-> [a \in Ac(m) |-> QFromV(m, v, s, a)]])
-ArgMax(m, q, s) == {a \in Ac(m) : \A b \in Ac(m) : ~RLess(q[s][a], q[s][b])}
-Supports(m) == [St(m) -> (SUBSET Ac(m)) \ {{}}]
+ArgMax(m, q, s) == {a \in Avail(m, s) : \A b \in Avail(m, s) : ~RLess(q[s][a], q[s][b])}
+Supports(m) == {f \in [St(m) -> (SUBSET Ac(m)) \ {{}}] : \A s \in St(m) : f[s] \subseteq Avail(m, s)}
 
 MInit ==
   /\ Mode = "mc"
@@ -345,7 +367,8 @@ Emit ==
   IF Mode = "trace"
   THEN phase \in {"converged", "capped"} =>
          PrintT(ToJson([tid |-> tid, phase |-> phase, l |-> l, fails |-> fails, flags |-> flags,
-                        rep |-> IF phase = "converged" THEN Report(Tr, Ev(l)) ELSE [mag |-> -1]]))
+                        rep |-> IF phase = "converged" THEN Report(Tr, Ev(l)) ELSE [mag |-> -1],
+                        clamp |-> IF phase = "converged" THEN ClampStates(Tr, Ev(l)) ELSE {}]))
   ELSE phase = "done" =>
          PrintT(ToJson([tid |-> tid, phase |-> phase, v |-> V, q |-> QTab(Tr, V), sup |-> sup]))
 
@@ -355,8 +378,8 @@ ZeroTempOptimal ==
   (Mode = "mc" /\ phase = "done") =>
      LET o == OptimalValue(Tr)  oq == OptimalQ(Tr, o) IN
      /\ \A s \in St(Tr) : REq(V[s], o[s])
-     /\ \A s \in St(Tr) : sup[s] = {a \in Ac(Tr) : REq(oq[s][a], o[s])}
-SupportsNonEmpty == Mode = "mc" => \A s \in St(Tr) : sup[s] # {}
+     /\ \A s \in St(Tr) : sup[s] = {a \in Avail(Tr, s) : REq(oq[s][a], o[s])}
+SupportsNonEmpty == Mode = "mc" => \A s \in St(Tr) : sup[s] # {} /\ sup[s] \subseteq Avail(Tr, s)
 \* policy improvement is monotone (hence the loop cannot cycle and MC terminates without a counter)
 MonotoneImprovement == [][(Mode = "mc" /\ V # <<>> /\ V' # V) => \A s \in St(Tr) : RLeq(V[s], V'[s])]_vars
 \* every explored value stays inside the reward bounds max|R| / (1 - gamma)
@@ -366,11 +389,12 @@ MCWithinRewardBounds ==
 \* positive entropy weights, prior on the open simplex) and the ranges the arithmetic above relies on
 InstancesOK ==
   /\ WellFormed(Tr) /\ Tr.GN < Tr.GD /\ ExplAbs(Tr) = {}
-  /\ \A s \in St(Tr) : Avail(Tr, s) = Ac(Tr)
+  /\ \A s \in St(Tr) : Avail(Tr, s) # {}
   /\ Tr.K >= 1 /\ Tr.K <= 4 /\ Tr.N >= 1 /\ Tr.N <= 6
   /\ \A s \in St(Tr) : Tr.LN[s] > 0 /\ Tr.LD[s] > 0 /\ Tr.LN[s] <= 10 * Tr.LD[s] /\ Tr.LD[s] <= 1000
   /\ Tr.PRD >= 1 /\ Tr.PRD <= 16
-  /\ \A s \in St(Tr) : (\A a \in Ac(Tr) : Tr.pn[s][a] >= 1) /\ RowSum(Tr, Tr.pn[s]) = Tr.PRD
-  /\ (Tr.unif = 1 => \A s \in St(Tr) : \A a \in Ac(Tr) : Tr.pn[s][a] * Tr.K = Tr.PRD)
+  /\ \A s \in St(Tr) : (\A a \in Ac(Tr) : IF a \in Avail(Tr, s) THEN Tr.pn[s][a] >= 1 ELSE Tr.pn[s][a] = 0)
+                         /\ RowSum(Tr, Tr.pn[s]) = Tr.PRD
+  /\ (Tr.unif = 1 => \A s \in St(Tr) : \A a \in Avail(Tr, s) : Tr.pn[s][a] * Cardinality(Avail(Tr, s)) = Tr.PRD)
   /\ VBound(Tr) < BIG \div 2
 =============================================================================
